@@ -73,6 +73,15 @@ def snapshot(obj, depth=0, seen=None):
     return res
 
 
+def has_mixed_root(text) -> bool:
+    """A root defined both by an explicit set binding and by attrpath bindings (`a = { … }; a.zq = 2;`)."""
+    v = A.View(text)
+    if not v.valid or v.core is None:
+        return False
+    explicit = {e["path"][0] for e in v.core["set"] if e["inh"] is None and len(e["path"]) == 1}
+    return any(e["inh"] is None and len(e["path"]) > 1 and e["path"][0] in explicit for e in v.core["set"])
+
+
 def add_mixed_root(text, r):
     """Valid but unusual shape: an explicit set binding followed by an attrpath binding of the same root
     (`a = { x = 1; }; a.zq = 2;`).  Only the rejection clauses are exercised on such roots."""
@@ -152,7 +161,7 @@ def make_machine(sh, doc_kw, op_kw, flags):
                 sh.classes[f"reject:{expect}"] += 1
                 return
             if expect != "ok":
-                return self._record_failure(f"accepted-edit-that-must-be-rejected|{expect}", {"op": [op, path, value], "out": str(res)[:300], "doc": before_text[:300]})
+                return self._record_failure(f"accepted-edit-that-must-be-rejected|{expect}" + ("|mixed-root" if has_mixed_root(before_text) else ""), {"op": [op, path, value], "out": str(res)[:300], "doc": before_text[:300]})
             # success: the twin document, which never saw a failing call, must produce the same text
             out = res
             st2, res2, _ = E.run_op(self.twin, op, path, value)
@@ -309,7 +318,7 @@ def replay(case):
         before = cur
         status, res, _ = E.run_op(src, op, path, value)
         if status == "ok" and expect != "ok":
-            fails.append((f"accepted-edit-that-must-be-rejected|{expect}", {"op": [op, path, value], "out": str(res)[:200]}))
+            fails.append((f"accepted-edit-that-must-be-rejected|{expect}" + ("|mixed-root" if has_mixed_root(before) else ""), {"op": [op, path, value], "out": str(res)[:200]}))
             break
         if status == "raise":
             if not isinstance(res, (KeyError, ValueError)):
